@@ -36,7 +36,7 @@ CLAIMS = {
          "no capacity overflow on any accepted history. C13_generate_no_panic (generate() itself does not panic, any fragment selection); C13_bodies_pass_move_and_mut_rules: every generated function body (constructors, unpack, drop, the four conversion forms) passes two more modelled compiler rules - bindings used only while in scope and not moved out (E0382/E0425), `data` stored into only when declared mut (E0596) - for every definition built from valid requests whose field names avoid the template bindings; the checker is also evaluated by the driver on every sampled module (chk=).", "4 C13", L_NOTE,
          "Lean 4 theorem (panic-freedom from invariants) + correspondence"),
  "C12": ("Theorems over the builder state machine for all histories: C12_membership (permutation of prev − removals + additions, "
-         "native and generic strategies), C12_fresh_ids / C12_ids_monotone, C12_unique_names (invariant of every variant and of the "
+         "native and generic strategies), C12_variant_distinct_known (no datum twice, only known ids), C12_fresh_ids / C12_ids_monotone, C12_unique_names (invariant of every variant and of the "
          "pending view), C12_reject_unchanged_*, C12_dup_rejected, C12_remove_ok_iff, C12_build_pending, C12_noop_close.", "4 C12", L_NOTE,
          "Lean 4 theorem (state-machine invariants) + correspondence incl. invalid-request stream"),
  "C18": ("Theorems C18_records_answer (every accepted addition records exactly the numbers supplied by the resolver/override) and "
